@@ -39,13 +39,14 @@ PROPS = {
              T("edit", 4000), T("scroll", 4000), T("save", 3000), T("tabs", 3000),
              ("chunk", "general", 4000, []), ("stream", "scrollback", 4000, []), ("dump", "general", 3000, []),
              ("text", "general", 5000, []), ("stress", "stress", 2000, [])]),
-        "cone": ALLP, "proj": ALLP,
+        "cone": ALLP, "proj": ["panic.", "hang."],
         "theorems": [],
     },
     "C02": {
         "runs": runs([T("general", 500, Q), T("resize", 500), T("alt", 400)],
                      [T("general", 20000, Q), T("resize", 15000), T("alt", 10000), T("scrollback", 5000), T("save", 3000)]),
-        "cone": ALLP, "proj": ALLP,
+        "cone": ALLP, "proj": ["size", "buf.geom", "buf.nlines", "other.geom", "other.nlines", "cursor", "dirty_len",
+                               "out.lines", "panic.", "public"],
     },
     "C03": {
         "runs": runs(
